@@ -1,5 +1,6 @@
 import WpModel.Drive.Loop
 import WpModel.Drive.Break
 import WpModel.Drive.Paginate
+import WpModel.Drive.BreakTrace
 
-def main : IO Unit := Wp.Drive.runDriver [Wp.Drive.Break.handle, Wp.Drive.Paginate.handle]
+def main : IO Unit := Wp.Drive.runDriver [Wp.Drive.Break.handle, Wp.Drive.Paginate.handle, Wp.Drive.BreakTrace.handle]
